@@ -149,20 +149,39 @@ def scan_forbidden():
     return hits
 
 
-def drive(requests, timeout=1800):
-    """send a batch of JSON requests to the compiled Lean driver; returns the list of replies (same order)"""
+def _drive_chunk(data, timeout):
+    rc, out, err = run([DRIVER], input=data, timeout=timeout)
+    if rc != 0:
+        raise InfraError("driver exited {}: {}".format(rc, err[:500]))
+    return [l for l in out.split("\n") if l]
+
+
+def drive(requests, timeout=1800, jobs=None):
+    """send a batch of JSON requests to the compiled Lean driver (several processes in parallel);
+    returns the list of replies in request order"""
     if not requests:
         return []
     if not os.path.exists(DRIVER):
         raise InfraError("driver executable missing: " + DRIVER)
-    data = "".join(json.dumps(r, separators=(",", ":")) + "\n" for r in requests)
-    rc, out, err = run([DRIVER], input=data, timeout=timeout)
-    if rc != 0:
-        raise InfraError("driver exited {}: {}".format(rc, err[:500]))
-    lines = [l for l in out.split("\n") if l]
-    if len(lines) != len(requests):
-        raise InfraError("driver returned {} replies for {} requests: {}".format(len(lines), len(requests), err[:300]))
-    return [json.loads(l) for l in lines]
+    lines = [json.dumps(r, separators=(",", ":")) + "\n" for r in requests]
+    jobs = jobs or min(int(os.environ.get("VERIF_JOBS", "12")), max(1, len(lines) // 8))
+    if jobs <= 1:
+        out = _drive_chunk("".join(lines), timeout)
+    else:
+        # round-robin so that expensive neighbouring requests spread over the workers
+        chunks = [lines[i::jobs] for i in range(jobs)]
+        from concurrent.futures import ThreadPoolExecutor
+        with ThreadPoolExecutor(max_workers=jobs) as ex:
+            outs = list(ex.map(lambda c: _drive_chunk("".join(c), timeout), chunks))
+        for c, o in zip(chunks, outs):
+            if len(c) != len(o):
+                raise InfraError("driver returned {} replies for {} requests".format(len(o), len(c)))
+        out = [None] * len(lines)
+        for j, o in enumerate(outs):
+            out[j::jobs] = o
+    if len(out) != len(requests):
+        raise InfraError("driver returned {} replies for {} requests".format(len(out), len(requests)))
+    return [json.loads(l) for l in out]
 
 
 def hexs(bs):
